@@ -2,6 +2,7 @@ package main
 
 import (
 	"fmt"
+	"go/constant"
 	"go/types"
 	"strings"
 
@@ -131,8 +132,87 @@ func init() {
 	pureStr := func(x *FnExec, fr *frame, n *node, in ssa.Instruction, c *ssa.CallCommon, args []Val, reach, hint string) (Val, error) {
 		return x.havocVal(hint, resultType(in, c), reach), nil
 	}
-	regLib("fmt.Sprintf", pureStr)
+	regLib("fmt.Sprintf", func(x *FnExec, fr *frame, n *node, in ssa.Instruction, c *ssa.CallCommon, args []Val, reach, hint string) (Val, error) {
+		r := x.havocVal(hint, resultType(in, c), reach)
+		// constant format made only of literal text and %s verbs applied to string arguments: length is the sum
+		fc, ok := c.Args[0].(*ssa.Const)
+		if !ok || fc.Value == nil || len(args) < 2 {
+			return r, nil
+		}
+		format := constant.StringVal(fc.Value)
+		lit, verbs := 0, 0
+		for i := 0; i < len(format); i++ {
+			if format[i] == '%' {
+				if i+1 < len(format) && format[i+1] == 's' {
+					verbs++
+					i++
+					continue
+				}
+				if i+1 < len(format) && format[i+1] == '%' {
+					lit++
+					i++
+					continue
+				}
+				return r, nil
+			}
+			lit++
+		}
+		st := n.st
+		va := args[1].S
+		anyT := types.Universe.Lookup("any").Type()
+		hn, hs := x.elemHeap(anyT)
+		h := x.heapGet(st, hn, hs)
+		_, unbox := x.q.boxFn(types.Typ[types.String])
+		sum := x.ilit(int64(lit))
+		var allStr []string
+		allStr = append(allStr, eq("(s_len "+va+")", x.ilit(int64(verbs))))
+		var parts []string
+		for i := 0; i < verbs; i++ {
+			el := sel(sel(h, "(s_arr "+va+")"), x.arith("+", "(s_off "+va+")", x.ilit(int64(i)), tInt))
+			allStr = append(allStr, eq("(itag "+el+")", fmt.Sprint(x.q.typeID(types.Typ[types.String]))))
+			sum = x.arith("+", sum, fmt.Sprintf("(strlen (%s %s))", unbox, el), tInt)
+			parts = append(parts, fmt.Sprintf("(%s %s)", unbox, el))
+		}
+		x.q.assert(implies(and(allStr...), eq("(strlen "+r.S+")", sum)))
+		// deterministic: a function of the format and the string arguments
+		if verbs > 0 && verbs <= 4 {
+			var ss []string
+			for range parts {
+				ss = append(ss, "Str")
+			}
+			fn := x.q.declareFun(fmt.Sprintf("lib_sprintf_%d_%d", verbs, lit)+"_"+mangle(format), ss, "Str")
+			x.q.assert(implies(and(allStr...), eq(r.S, fmt.Sprintf("(%s %s)", fn, strings.Join(parts, " ")))))
+		}
+		x.trusted["fmt.Sprintf with a constant format of literal text and %s verbs over string arguments: result length is the sum of the parts, result is a function of the arguments"] = true
+		return r, nil
+	})
 	regLib("fmt.Sprint", pureStr)
+
+	// ---------------- crypto/sha1, encoding/hex, hash.Hash ----------------
+	regLib("crypto/sha1.New", func(x *FnExec, fr *frame, n *node, in ssa.Instruction, c *ssa.CallCommon, args []Val, reach, hint string) (Val, error) {
+		r := x.havocVal(hint, resultType(in, c), reach)
+		x.q.declareFun("lib_hashsize", []string{"Iface"}, x.q.intSort())
+		x.q.assert(and(not(eq(r.S, "inil")), eq("(lib_hashsize "+r.S+")", x.ilit(20))))
+		return r, nil
+	})
+	libInvokeModels["hash.Hash.Sum"] = &libModel{name: "hash.Hash.Sum", apply: func(x *FnExec, fr *frame, n *node, in ssa.Instruction, c *ssa.CallCommon, args []Val, reach, hint string) (Val, error) {
+		r := x.havocVal(hint, resultType(in, c), reach)
+		x.q.declareFun("lib_hashsize", []string{"Iface"}, x.q.intSort())
+		x.q.assert(and(eq("(s_len "+r.S+")", x.arith("+", "(s_len "+args[1].S+")", "(lib_hashsize "+args[0].S+")", tInt)), not(eq("(s_arr "+r.S+")", "nil"))))
+		x.trusted["hash.Hash.Sum(b): returns len(b)+Size() bytes; sha1 Size() == 20"] = true
+		return r, nil
+	}}
+	libInvokeModels["hash.Hash.Write"] = &libModel{name: "hash.Hash.Write", apply: func(x *FnExec, fr *frame, n *node, in ssa.Instruction, c *ssa.CallCommon, args []Val, reach, hint string) (Val, error) {
+		r := x.havocVal(hint, resultType(in, c), reach)
+		x.q.assert(eq(r.Tuple[1].S, "inil")) // hash.Hash.Write never returns an error (documented)
+		x.trusted["hash.Hash.Write never returns an error (package hash documentation)"] = true
+		return r, nil
+	}}
+	regLib("encoding/hex.EncodeToString", func(x *FnExec, fr *frame, n *node, in ssa.Instruction, c *ssa.CallCommon, args []Val, reach, hint string) (Val, error) {
+		r := x.havocVal(hint, resultType(in, c), reach)
+		x.q.assert(eq("(strlen "+r.S+")", x.arith("*", x.ilit(2), "(s_len "+args[0].S+")", tInt)))
+		return r, nil
+	})
 
 	// ---------------- encoding/binary ----------------
 	regLib("(encoding/binary.bigEndian).Uint32", func(x *FnExec, fr *frame, n *node, in ssa.Instruction, c *ssa.CallCommon, args []Val, reach, hint string) (Val, error) {
@@ -215,6 +295,27 @@ func init() {
 		x.heapSet(st, "$alloc", "(Array Ref Bool)", ite(ok, sto(sto(sto(al, ipn, "true"), "(s_arr "+ipS+")", "true"), "(s_arr "+mS+")", "true"), al))
 		x.heapSet(st, hIP, sIP, ite(ok, sto(x.heapGet(st, hIP, sIP), ipn, ipS), x.heapGet(st, hIP, sIP)))
 		x.heapSet(st, hM, sM, ite(ok, sto(x.heapGet(st, hM, sM), ipn, mS), x.heapGet(st, hM, sM)))
+		// tie the result to spec functions of the input string (ParseCIDR is deterministic)
+		x.q.declareFun("pf_cidrOK", []string{"Str"}, "Bool")
+		x.q.declareFun("pf_cidrIs4", []string{"Str"}, "Bool")
+		x.q.assert(eq(ok, "(pf_cidrOK "+args[0].S+")"))
+		x.q.assert(implies(ok, eq(eq("(s_len "+ipS+")", x.ilit(4)), "(pf_cidrIs4 "+args[0].S+")")))
+		if x.mode == ModeBV {
+			for _, L := range []int{4, 16} {
+				bits := 8 * L
+				cat := func(s string) string {
+					t := x.byteAt(st, s, x.ilit(0))
+					for i := 1; i < L; i++ {
+						t = fmt.Sprintf("(concat %s %s)", t, x.byteAt(st, s, x.ilit(int64(i))))
+					}
+					return t
+				}
+				fn, fm := fmt.Sprintf("pf_cidrNet%d", L), fmt.Sprintf("pf_cidrMask%d", L)
+				x.q.declareFun(fn, []string{"Str"}, fmt.Sprintf("(_ BitVec %d)", bits))
+				x.q.declareFun(fm, []string{"Str"}, fmt.Sprintf("(_ BitVec %d)", bits))
+				x.q.assert(implies(and(ok, eq("(s_len "+ipS+")", x.ilit(int64(L)))), and(eq(cat(ipS), fmt.Sprintf("(%s %s)", fn, args[0].S)), eq(cat(mS), fmt.Sprintf("(%s %s)", fm, args[0].S)))))
+			}
+		}
 		if x.mode == ModeBV {
 			// mask is a prefix mask; IP is the network number (IP & Mask == IP)
 			for _, L := range []int{4, 16} {
@@ -237,7 +338,27 @@ func init() {
 		x.trusted["net.ParseCIDR: on success returns a fresh *IPNet with len(IP)==len(Mask) in {4,16}, a contiguous prefix mask and IP == IP&Mask"] = true
 		return res, nil
 	})
-	regLib("(net.IP).String", pureFn("ip_string", "Str"))
+	regLib("(net.IP).String", func(x *FnExec, fr *frame, n *node, in ssa.Instruction, c *ssa.CallCommon, args []Val, reach, hint string) (Val, error) {
+		st := n.st
+		ip := args[0].S
+		r := x.havocVal(hint, resultType(in, c), reach)
+		x.q.assert(implies(eq("(s_len "+ip+")", x.ilit(0)), eq(r.S, x.q.strLit("<nil>"))))
+		if x.mode == ModeBV {
+			for _, L := range []int{4, 16} {
+				t := x.byteAt(st, ip, x.ilit(0))
+				for i := 1; i < L; i++ {
+					t = fmt.Sprintf("(concat %s %s)", t, x.byteAt(st, ip, x.ilit(int64(i))))
+				}
+				fn := fmt.Sprintf("pf_ipString%d", L)
+				x.q.declareFun(fn, []string{fmt.Sprintf("(_ BitVec %d)", 8*L)}, "Str")
+				x.q.assert(implies(eq("(s_len "+ip+")", x.ilit(int64(L))), and(eq(r.S, fmt.Sprintf("(%s %s)", fn, t)), x.cmp(">=", "(strlen "+r.S+")", x.ilit(2), tInt))))
+			}
+		} else {
+			x.q.assert(implies(or(eq("(s_len "+ip+")", x.ilit(4)), eq("(s_len "+ip+")", x.ilit(16))), x.cmp(">=", "(strlen "+r.S+")", x.ilit(2), tInt)))
+		}
+		x.trusted["net.IP.String: a deterministic function of the address bytes for 4/16-byte addresses, non-empty; \"<nil>\" for length 0"] = true
+		return r, nil
+	})
 
 	// ---------------- math/big (bit-vector mode: 136-bit two's complement; int mode: mathematical) ----------------
 	regLib("math/big.NewInt", func(x *FnExec, fr *frame, n *node, in ssa.Instruction, c *ssa.CallCommon, args []Val, reach, hint string) (Val, error) {
@@ -293,6 +414,14 @@ func init() {
 		}
 		x.heapSet(st, hn, hs, sto(h, args[0].S, v))
 		return Val{S: args[0].S, T: resultType(in, c)}, nil
+	})
+	regLib("(*math/big.Int).Sign", func(x *FnExec, fr *frame, n *node, in ssa.Instruction, c *ssa.CallCommon, args []Val, reach, hint string) (Val, error) {
+		_, _, h := x.bigHeap(n.st)
+		v := sel(h, args[0].S)
+		if x.mode == ModeBV {
+			return Val{S: x.q.define(hint, x.q.intSort(), fmt.Sprintf("(ite (= %s (_ bv0 136)) %s (ite (bvslt %s (_ bv0 136)) %s %s))", v, x.ilit(0), v, x.ilit(-1), x.ilit(1))), T: tInt}, nil
+		}
+		return Val{S: x.q.define(hint, "Int", fmt.Sprintf("(ite (= %s 0) 0 (ite (< %s 0) (- 1) 1))", v, v)), T: tInt}, nil
 	})
 	regLib("(*math/big.Int).Bytes", func(x *FnExec, fr *frame, n *node, in ssa.Instruction, c *ssa.CallCommon, args []Val, reach, hint string) (Val, error) {
 		st := n.st
